@@ -5,7 +5,8 @@ Stage A: TLC checks the TLA+ reference (Gf64, Cmac, Eia over Snow3G / Zuc / Aes1
 Stage B: TLC enumerates the parameter lattice (bearer x direction grid, every message bit length incl. 0, exact
          multiples of 8/32/64/128, key/COUNT patterns incl. walking bits); the driver replays it into
          security.NIA1/2/3 and security.NASMacCalculate and records seeded random calls.
-Stage C: TLC recomputes every MAC with the reference and compares the 4 octets."""
+Stage C: TLC recomputes every MAC with the reference and compares the 4 octets.
+Added after seeded rounds 3-4: lengths 2^k, 2^k-1, 8193 and 65 537 octets in the quick lattice; the frozen EIA3 corner points of the ZUC arithmetic as generated cases (stage A re-establishes each with the TLA+ model)."""
 import os, sys
 sys.path.insert(0, os.path.dirname(os.path.abspath(__file__)))
 from seclib import *
